@@ -182,6 +182,33 @@ def _expr_guards(node):
     return expression_guards(node)
 
 
+def _is_assert_fold(h):
+    """`def h(value, checks): result = value; for cond, msg in checks: result = <...>.assert_(result, cond, msg); return result`"""
+    if len(h.params) != 2 or not isinstance(h.node, ast.FunctionDef):
+        return False
+    v, L = h.params
+    body = [st for st in h.node.body if not (isinstance(st, ast.Expr) and isinstance(st.value, ast.Constant))]
+    acc = v
+    i = 0
+    if body and isinstance(body[0], ast.Assign) and len(body[0].targets) == 1 and isinstance(body[0].targets[0], ast.Name) and isinstance(body[0].value, ast.Name) and body[0].value.id == v:
+        acc = body[0].targets[0].id
+        i = 1
+    if len(body) != i + 2:
+        return False
+    loop, ret = body[i], body[i + 1]
+    if not (isinstance(loop, ast.For) and isinstance(loop.iter, ast.Name) and loop.iter.id == L and isinstance(loop.target, ast.Tuple) and len(loop.target.elts) == 2 and len(loop.body) == 1):
+        return False
+    c_, m_ = (e.id if isinstance(e, ast.Name) else None for e in loop.target.elts)
+    st = loop.body[0]
+    if not (isinstance(st, ast.Assign) and len(st.targets) == 1 and isinstance(st.targets[0], ast.Name) and st.targets[0].id == acc and isinstance(st.value, ast.Call)):
+        return False
+    ch = attr_chain(st.value.func)
+    a = st.value.args
+    if not (ch and ch[-1] == "assert_" and len(a) >= 2 and isinstance(a[0], ast.Name) and a[0].id == acc and isinstance(a[1], ast.Name) and a[1].id == c_):
+        return False  # an assert attached to anything but the running result drops the earlier ones from the graph
+    return isinstance(ret, ast.Return) and isinstance(ret.value, ast.Name) and ret.value.id == acc
+
+
 def _assert_calls(p, f):
     """assignments `v = <...>.assert_(v, cond, ...)` and `v = <...>.cast(v, ...)` in f"""
     out = []
@@ -194,6 +221,28 @@ def _assert_calls(p, f):
                 fake._parent = getattr(n, "_parent", None)
                 fake._stands_for = n
                 out.append((n, n.value.args[0].id, "cast", None))
+                continue
+        # `v = _assert_all(v, [(cond, msg), ...])`: a helper that folds assert_ over a list of checks, each chained on the
+        # previous one's result; the checks may be collected in a local list first (appends, possibly conditional)
+        if isinstance(n, ast.Assign) and isinstance(n.value, ast.Call) and len(n.targets) == 1 and isinstance(n.targets[0], ast.Name) and len(n.value.args) == 2 and isinstance(n.value.args[0], ast.Name) and n.value.args[0].id == n.targets[0].id:
+            r = resolve_callee(p, n.value, f.module)
+            if r and r[0] == "func" and _is_assert_fold(r[1]):
+                var = n.targets[0].id
+                L = n.value.args[1]
+                elements = []
+                if isinstance(L, (ast.List, ast.Tuple)):
+                    elements = [(n, e) for e in L.elts]
+                elif isinstance(L, ast.Name):
+                    for s_ in walk_no_nested(f.node):
+                        if isinstance(s_, ast.Assign) and any(isinstance(t, ast.Name) and t.id == L.id for t in s_.targets) and isinstance(s_.value, (ast.List, ast.Tuple)):
+                            elements += [(n, e) for e in s_.value.elts]
+                        if isinstance(s_, ast.Expr) and isinstance(s_.value, ast.Call) and isinstance(s_.value.func, ast.Attribute) and s_.value.func.attr == "append" and isinstance(s_.value.func.value, ast.Name) and s_.value.func.value.id == L.id and s_.value.args:
+                            elements.append((s_, s_.value.args[0]))
+                for node_stmt, e in elements:
+                    cnd = e.elts[0] if isinstance(e, (ast.Tuple, ast.List)) and e.elts else e
+                    cond = norm(cnd)
+                    what = "type" if "isinstance(" in cond else ("shape" if ".shape" in cond and "equal(" in cond else ("arity" if "len(" in cond else None))
+                    out.append((node_stmt, var, "assert_", what))
                 continue
         if isinstance(n, ast.Assign) and isinstance(n.value, ast.Call) and len(n.targets) == 1 and isinstance(n.targets[0], ast.Name):
             ch = attr_chain(n.value.func)
